@@ -72,6 +72,23 @@ CONSTRUCTS = [
     "func() { }()", "func() { if false { } else if false { } }()",
 ]
 
+EXPECT = []
+# a name in call position is looked up each time the call is evaluated: the same call site sees the binding of the
+# invocation / iteration / closure it runs in
+for _src, _want, _why in (
+        ("func outer(n) { func helper() { return n }; return helper() }\n[outer(1), outer(2), outer(3)]", "[i:1,i:2,i:3]", "a nested named function called by name belongs to the invocation that declared it"),
+        ("r = []\nfor i in [1, 2, 3] { f = func() { return i * 10 }; r += f() }\nr", "[i:10,i:20,i:30]", "a call site inside a loop calls what the name is bound to in that iteration"),
+        ("func mk(k) { return func() { return k } }\nr = []\nfor g in [mk(1), mk(2), mk(3)] { r += g() }\nr", "[i:1,i:2,i:3]", "a loop variable in call position is the function of its iteration"),
+        ("func apply(f) { return f() }\n[apply(func() { return 1 }), apply(func() { return 2 })]", "[i:1,i:2]", "a parameter in call position is the argument of that invocation"),
+        ("func apply5(f, a, b, c, d) { return f() }\n[apply5(func() { return 1 }, 0, 0, 0, 0), apply5(func() { return 2 }, 0, 0, 0, 0)]", "[i:1,i:2]", "... also on the five-parameter path"),
+        ("func twice() { r = []; f = nil; for k in [0, 1] { if k == 0 { f = func() { return \"a\" } } else { f = func() { return \"b\" } }; r += f() }; return r }\ntwice()", "[s:61,s:62]",
+         "a name rebound between two evaluations of one call site"),
+        ("func counter() { n = 0; return func() { n++; return n } }\nc1 = counter(); c2 = counter()\nfunc bump(c) { return c() }\n[bump(c1), bump(c1), bump(c2)]", "[i:1,i:2,i:1]", "two closure instances through one call site"),
+        ("func rec(n, f) { if n == 0 { return f() }; return rec(n - 1, func() { return n }) }\nrec(3, func() { return 0 })", "i:1", "recursion: the call site f() runs in the deepest invocation"),
+        ("module a { func who() { return \"a\" } }\nmodule b { func who() { return \"b\" } }\nr = []\nfor m in [a, b] { r += m.who() }\nr", "[s:61,s:62]", "a member call through a loop variable"),
+        ("func d(x) { defer show(x) }\nr = []\nfunc show(v) { r += v }\nd(1)\nshow = func(v) { r += v * 100 }\nd(2)\nr", "[i:1,i:200]", "a deferred call by name takes the function bound when the defer statement runs")):
+    EXPECT.append({"src": _src, "field": "result", "want": _want, "why": _why})
+
 
 def run(tier, seed, replay=None):
     return interpcheck.run_interp_check(
@@ -81,4 +98,4 @@ def run(tier, seed, replay=None):
              "of the shadowed names after the exit and at top level (2888 programs), then random scope-stress programs over the "
              "name pool {a,b,c,x}; compared: probe trace, final top-level bindings, result / error class; "
              "non-trivial = distinct source whose trace is not empty",
-        design_ref="DESIGN.md §4 C04", expectations=product())
+        design_ref="DESIGN.md §4 C04", expectations=product() + EXPECT)
